@@ -99,8 +99,9 @@ def prepare(ch):
         prep.nested = ch.chance(1, 3)
     else:
         n = ch.between(1, 4)
-        prep.entries = [(ch.draw(4), ch.between(1, 2), ch.weighted([4, 1, 1, 1])) for _ in range(n)]
-        # (kind: 0 entered async cm | 1 pushed async exit | 2 async callback | 3 entered synchronous cm, suspensions,
+        prep.entries = [(ch.draw(5), ch.between(1, 2), ch.weighted([4, 1, 1, 1])) for _ in range(n)]
+        # (kind: 0 entered async cm | 1 pushed async exit | 2 async callback | 3 entered synchronous cm
+        #  | 4 a plain (synchronous) callback - whatever it returns, truthy included, is its own business; suspensions,
         #  behaviour 0 falsy 1 truthy 2 raise 3 registers one more exit on the stack when it is handed an exception)
         prep.body_susp = ch.between(1, 2)
         prep.block_raises = ch.chance(1, 3)
@@ -561,7 +562,11 @@ def run_stack(prep, st, sim, info, cancel_at):
                 log.append(("exit_begin", name, ev))
                 return exit_logic(name, behave, ev)
 
-        return name, (CM(), exit_fn, callback, SyncCM())[kind]
+        def plain_callback():
+            log.append(("exit_begin", name, None))
+            return exit_logic(name, 0 if behave == 3 else behave, None)
+
+        return name, (CM(), exit_fn, callback, SyncCM(), plain_callback)[kind]
 
     registered = []
     objs = [make(i, k, s, b) for i, (k, s, b) in enumerate(prep.entries)]
@@ -629,10 +634,10 @@ def run_stack(prep, st, sim, info, cancel_at):
         while todo:
             name = todo.pop()
             kind, _susp, behave = by_name.get(name, (1, 0, 0))
-            recv = None if kind == 2 else exc
+            recv = None if kind in (2, 4) else exc
             expected.append((name, recv))
-            if kind == 2:
-                behave = 0 if behave == 1 else behave
+            if kind in (2, 4):
+                behave = 0 if behave in (1, 3) else behave  # callbacks can neither suppress nor see the exception
             if behave == 1 and exc is not None:
                 exc = None
             elif behave == 2:
